@@ -13,9 +13,12 @@ import (
 )
 
 type SolverCfg struct {
-	TimeoutS int
-	TmpDir   string
-	All      bool // thorough: cross-check with all solvers
+	TimeoutS  int
+	PatienceS int // timeout of the second attempt on an obligation no solver decided in TimeoutS (0: no second attempt)
+	TmpDir    string
+	All       bool // thorough: cross-check with all solvers
+	// obligations recorded as open known findings: expected to stay undecided, no long second attempt
+	NoPatience map[string]bool
 }
 
 type solver struct {
@@ -52,6 +55,21 @@ func runSolverN(s solver, file string, toS int, nChecks int) (string, float64) {
 			}
 		}
 	}
+	cmd := exec.CommandContext(ctx, a[0], a[1:]...)
+	var out bytes.Buffer
+	cmd.Stdout = &out
+	cmd.Stderr = &out
+	t0 := time.Now()
+	_ = cmd.Run()
+	return out.String(), time.Since(t0).Seconds()
+}
+
+// runSolverCtx: one check-sat, cancellable (the portfolio stops the other solvers once one has decided).
+func runSolverCtx(parent context.Context, s solver, file string, toS int) (string, float64) {
+	hard := toS*3 + 20
+	ctx, cancel := context.WithTimeout(parent, time.Duration(hard)*time.Second)
+	defer cancel()
+	a := s.args(file, toS)
 	cmd := exec.CommandContext(ctx, a[0], a[1:]...)
 	var out bytes.Buffer
 	cmd.Stdout = &out
@@ -184,6 +202,10 @@ func solveUnit(u *Unit, cfg *SolverCfg, only func(*Obligation) bool) {
 
 // portfolio runs the stand-alone query of one obligation on all solvers.
 func portfolio(u *Unit, ob *Obligation, cfg *SolverCfg, first string) {
+	portfolioWith(u, ob, cfg, first, false)
+}
+
+func portfolioWith(u *Unit, ob *Obligation, cfg *SolverCfg, first string, patient bool) {
 	q := u.Script.render(ob)
 	ob.queryTxt = q
 	f := tmpFile(cfg, q)
@@ -193,15 +215,23 @@ func portfolio(u *Unit, ob *Obligation, cfg *SolverCfg, first string) {
 		dt           float64
 	}
 	ch := make(chan res, len(solvers))
+	pctx, stopOthers := context.WithCancel(context.Background())
+	defer stopOthers()
 	for _, s := range solvers {
 		go func(s solver) {
-			out, dt := runSolver(s, f, cfg.TimeoutS)
+			out, dt := runSolverCtx(pctx, s, f, cfg.TimeoutS)
 			ch <- res{s.name, firstWord(out), out, dt}
 		}(s)
 	}
 	var all []res
 	for range solvers {
-		all = append(all, <-ch)
+		r := <-ch
+		all = append(all, r)
+		if !cfg.All && (r.r == "unsat" || r.r == "sat") {
+			// decided: do not wait for the other solvers to run into their timeouts (thorough waits: it cross-checks)
+			stopOthers()
+			break
+		}
 	}
 	var sat, unsat []res
 	for _, r := range all {
@@ -238,6 +268,19 @@ func portfolio(u *Unit, ob *Obligation, cfg *SolverCfg, first string) {
 		ob.Result, ob.Solver = "unknown", "all"
 		if first == "error" {
 			ob.Result = "error"
+		}
+		// No solver decided it within the normal timeout. Before the obligation is reported as failed, give every solver a
+		// long second chance: on a loaded machine a query that normally takes a few seconds can exceed the timeout, and an
+		// undischarged obligation on an unchanged tree would be a false alarm. (A definite `sat` is never retried.)
+		if os.Getenv("GOVC_SLOW") != "" {
+			fmt.Fprintf(os.Stderr, "PORTFOLIO-UNDECIDED %s patient=%v\n%s", ob.Name, patient, ob.Detail)
+		}
+		if !patient && cfg.PatienceS > cfg.TimeoutS && !cfg.NoPatience[ob.Name] {
+			long := *cfg
+			long.TimeoutS = cfg.PatienceS
+			saved := ob.Detail
+			portfolioWith(u, ob, &long, first, true)
+			ob.Detail = saved + "second attempt with " + fmt.Sprint(cfg.PatienceS) + " s per solver:\n" + ob.Detail
 		}
 	}
 }
